@@ -122,12 +122,25 @@ def generate(g, tier):
     return cases
 
 
+def ignore_bodies(text):
+    """the (stripped) lines standing inside IGNORE blocks of the source: what IGNORE emits is not validated by DucklingScript"""
+    out, stack = set(), []
+    for raw in text.split('\n'):
+        if not raw.strip(): continue
+        ind = len(raw) - len(raw.lstrip(' \t'))
+        while stack and ind <= stack[-1]: stack.pop()
+        if stack: out.add(raw.strip())
+        elif raw.strip().split()[0].upper().lstrip('$') == 'IGNORE': stack.append(ind)
+    return out
+
+
 def oracle(cases, results):
     fs = []
     for i, (c, r) in enumerate(zip(cases, results)):
         if r.get('kind') != 'ok': continue
+        verbatim = ignore_bodies(c['src'].get('text', '')) if 'text' in c.get('src', {}) else set()
         for l in r['out']:
-            why = legal(l)
+            why = legal(l) if l.strip() not in verbatim else None
             if why:
                 fs.append(fail(i, f'illegal output line {l!r}: {why}', f'illegal:{l.split(" ")[0]}')); break
         else:
